@@ -25,3 +25,7 @@
 (declare-fun f_eq (F F) Bool)
 (declare-fun i2f (Int) F)
 (declare-fun f2i (F) Int)
+
+; ---- whether values of the dynamic type with this tag may be used as map keys (comparable types);
+; facts are stated per function for the type tags it mentions, tag 0 is the nil interface
+(declare-fun hashable (Int) Bool)
